@@ -305,6 +305,8 @@ static void ep2_mul_reg_imp(ep2_t r, const ep2_t p, const bn_t k) {
 	size_t l, n;
 
 	bn_null(_k);
+	ep2_null(u);
+	ep2_null(v);
 
 	RLC_TRY {
 		bn_new(_k);
